@@ -17,7 +17,7 @@ EQB = "(list_eqb outcome_obs_eqb)"
 SHARD = 150
 RULE = ("all sequences of up to 3 (quick) / 4 (thorough) operations over a 9-operation alphabet - read clean file, read "
         "file with a duplicate (raise and yield), read and abandon after 1 or 2 outputs, read without close, write rows "
-        "with a duplicate (with and without close), validate with limit 0 - plus five 'late finalisation' operations (an abandoned reader or an open writer is closed only after j outputs of the next run), alone and before/after every other operation - on one CID (key field, IsUnique, "
+        "with a duplicate (with and without close), validate with limit 0 - plus five 'late finalisation' operations (an abandoned reader or an open writer is closed only after j outputs of the next run), alone and before/after every other operation - and, under CIDs with a header row, every operation followed by a run whose validation limit ends inside the header - on one CID (key field, IsUnique, "
         "DistinctCount count <= 2) over data sets sharing key values, exhaustively; plus random longer histories over "
         "random CIDs. A variant constructs all Reader objects before the first operation runs (construction must not touch the checks). Every operation's outcome is also compared with the same operation on a freshly loaded CID in "
         "the implementation itself. Non-trivial: a history of at least 2 operations. Distinct = distinct history.")
@@ -51,6 +51,18 @@ LATE = [
     {"op": "late", "first": {"kind": "read", "mode": "raise", "limit": None, "table": CLEAN, "k": 1}, "mode": "raise", "limit": None, "table": THREE, "j": 2},
     {"op": "late", "first": {"kind": "write", "rows": [["a", "x"]]}, "mode": "continue", "limit": None, "table": THREE, "j": 1},
 ]
+
+
+# the same with one header row: a validation limit that ends inside the header validates nothing, yet the run is a run
+# like any other (checks reset at its start, end checks on what it saw - nothing)
+SPEC_H = dict(SPEC, header=1)
+LIMITED = [
+    {"op": "rows", "mode": "raise", "limit": 1, "table": THREE},
+    {"op": "validate", "limit": 1, "table": THREE},
+    {"op": "rows", "mode": "yield", "limit": 1, "table": DUP},
+    {"op": "noclose", "mode": "raise", "limit": 1, "table": THREE},
+]
+SPEC_GE = dict(SPEC, header=1, checks=[{"kind": "unique", "cols": [0]}, {"kind": "distinct", "col": 0, "op": ">=", "n": 2}])
 
 
 def canon_outs(outs, spec):
@@ -227,6 +239,11 @@ def gen_inputs(tier, rnd):
             yield {"spec": SPEC, "history": list(hist)}
             if n <= 2 or (tier != "quick" and n <= 3):
                 yield {"spec": SPEC, "history": list(hist), "pre": True}
+    for spec in (SPEC_H, SPEC_GE):
+        for first in ALPHABET:
+            for second in LIMITED:
+                yield {"spec": spec, "history": [first, second]}
+                yield {"spec": spec, "history": [first, second, first]}
     for late in LATE:
         yield {"spec": SPEC, "history": [late]}
         for other in ALPHABET:
